@@ -91,36 +91,35 @@ theorem row_verdict_none {rooms : List Room} {caller : Key} {now : Int} {c : Cha
               simp [hroom, hr, hg, hc, hc1, hro, heq, hoe, toInNode, signRow, toNodeRow, hn, he, hd, canIn_peer,
                 Except.toBool, Ingest.Defects.none, Defects.none]
 
-/-- **row-level agreement, the code as it is**, for a change that does not move the row to another room -/
-theorem row_verdict_asImplemented {rooms : List Room} {caller : Key} {now : Int} {c : Change} {n : Row} {rid : Id}
+/-- **row-level agreement, any switches.** For a change that does not move the row to another room and whose
+    previous version (if any) is of the same entity and was in a room, the local right check and the peer's
+    `validate_node` agree whatever the switches of the two models are. -/
+theorem row_verdict_any (df : Defects) (d : Ingest.Defects) {rooms : List Room} {caller : Key} {now : Int}
+    {c : Change} {n : Row} {rid : Id}
     (hroom : c.roomId = some rid) (hn : n.room = some rid) (he : n.entity = c.entity) (hd : n.mdate = now)
-    (hnm : NoMove c) :
-    localOk Defects.asImplemented rooms caller now c = peerOk Ingest.Defects.asImplemented rooms caller c n := by
+    (hold : ∀ o, c.old = some o → o.entity = c.entity ∧ o.room ≠ none) (hnm : NoMove c) :
+    localOk df rooms caller now c = peerOk d rooms caller c n := by
   unfold localOk peerOk validateChange Ingest.validateNode
   cases hco : c.old with
   | none =>
     rw [needed_none hco]
     cases hr : getRoom rooms rid with
-    | none => simp [hroom, hr, toInNode, signRow, toNodeRow, hn, canIn_peer, Except.toBool, Ingest.Defects.asImplemented]
+    | none => simp [hroom, hr, toInNode, signRow, toNodeRow, hn, canIn_peer, Except.toBool]
     | some room =>
       cases hc : room.can caller c.entity now (Ingest.needRight none caller) <;>
-        simp [hroom, hr, hc, toInNode, signRow, toNodeRow, hn, he, hd, canIn_peer, Except.toBool,
-          Ingest.Defects.asImplemented, Defects.asImplemented]
+        simp [hroom, hr, hc, toInNode, signRow, toNodeRow, hn, he, hd, canIn_peer, Except.toBool]
   | some o =>
+    obtain ⟨hoe, hor⟩ := hold o hco
     rw [needed_some hco]
-    cases hr : getRoom rooms rid with
-    | none =>
-      simp [hroom, hr, toInNode, signRow, toNodeRow, hn, canIn_peer, Except.toBool, Ingest.Defects.asImplemented]
-    | some room =>
-      cases hro : o.room with
+    cases hro : o.room with
+    | none => exact absurd hro hor
+    | some oldRid =>
+      have heq : oldRid = rid := hnm o oldRid rid hco hro hroom
+      cases hr : getRoom rooms rid with
       | none =>
+        simp [hroom, hr, toInNode, signRow, toNodeRow, hn, canIn_peer, Except.toBool]
+      | some room =>
         cases hc : room.can caller c.entity now (Ingest.needRight (some o.author) caller) <;>
-          simp [hroom, hr, hc, hro, toInNode, signRow, toNodeRow, hn, he, hd, canIn_peer, Except.toBool,
-            Ingest.Defects.asImplemented, Defects.asImplemented]
-      | some oldRid =>
-        have heq : oldRid = rid := hnm o oldRid rid hco hro hroom
-        cases hc : room.can caller c.entity now (Ingest.needRight (some o.author) caller) <;>
-          simp [hroom, hr, hc, hro, heq, toInNode, signRow, toNodeRow, hn, he, hd, canIn_peer, Except.toBool,
-            Ingest.Defects.asImplemented, Defects.asImplemented]
+          simp [hroom, hr, hc, hro, heq, hoe, toInNode, signRow, toNodeRow, hn, he, hd, canIn_peer, Except.toBool]
 
 end Discret.LocalWrite
